@@ -278,6 +278,9 @@ func analyse(repo, tier string, nocache bool) *RunResult {
 		rr.Props[id] = pr
 	}
 	rr.Unresolved = a.Unresolved
+	if tier == "thorough" {
+		thoroughExtras(repo, a, rr, ids)
+	}
 	b, _ := json.Marshal(rr)
 	os.WriteFile(cfile, b, 0o644)
 	pruneCache(cdir, 6)
